@@ -216,6 +216,41 @@ def check(model, impl, p, stats):
     return None, d
 
 
+def sym_constants():
+    """real SymPy expressions without any parameter (numbers, rationals, pi, roots): negated powers, powers of pi, quotients"""
+    pi, R, I_, F = sym.pi, sym.Rational, sym.Integer, sym.Float
+    return [-pi ** 2, -I_(2) ** R(1, 3), pi / 2, -(pi ** 2) / 3, R(-2, 3) * pi ** 2, -sym.sqrt(2), -sym.sqrt(3) ** 3, R(1, 3), -pi ** R(1, 2), -(pi + 1) ** 2,
+            2 ** pi, -2 ** pi, -(I_(3) ** pi) / 7, pi ** -2, -pi ** -2, -F(1.5) * pi ** 2, -(R(2, 3) ** pi), 3 * pi / 4, -(2 * pi) ** 2, -(pi / 2) ** 3,
+            (-pi) ** 2, -(pi ** 2) ** R(1, 3), 1 - pi ** 2, -(I_(5) ** R(2, 3)) * pi]
+
+
+def sym_constant_case(impl, k):
+    import blackbird
+    from blackbird import BlackbirdProgram
+    cs = sym_constants()
+    c1, c2, c3 = cs[k % len(cs)], cs[(k * 7 + 3) % len(cs)], cs[(k * 5 + 1) % len(cs)]
+    p = BlackbirdProgram(name="consts", version="1.0")
+    p._operations.append({"op": "Rgate", "modes": [0], "args": [c1, 0.5], "kwargs": {"phi": c2, "l": [1, c3]}})
+    p._operations.append({"op": "Dgate", "modes": [1], "args": [c3], "kwargs": {"r": c1}})
+    p._modes = {0, 1}
+    try:
+        d = blackbird.dumps(p)
+        q = impl.loads(d)
+    except Exception as e:  # noqa: BLE001
+        return "a program with constant SymPy values (%s, %s, %s) does not serialise and re-load: %s: %s" % (c1, c2, c3, type(e).__name__, str(e)[:100])
+    want = [c1, 0.5, c2, c3, c3, c1]
+    o0, o1 = q.operations
+    got = list(o0["args"]) + [o0["kwargs"]["phi"], o0["kwargs"]["l"][1]] + list(o1["args"]) + [o1["kwargs"]["r"]]
+    for w, g in zip(want, got):
+        try:
+            bad = not abs(complex(g) - complex(sym.N(w, 30))) <= 1e-12 * abs(complex(sym.N(w, 30)))
+        except Exception:  # noqa: BLE001
+            bad = True
+        if bad:
+            return "the constant SymPy value %s (%.17g) is written so that it reads back as %r:\n%s" % (w, float(w), g, d)
+    return None
+
+
 def run(tier, seed):
     res = Result(PROP, tier, seed)
     rng = random.Random(seed)
@@ -247,6 +282,17 @@ def run(tier, seed):
                 res.violate(msg, {"check": "api", "case": i, "seed": seed, "program": describe(p), "dump": d})
                 if len(res.violations) >= 5:
                     break
+        for k in range(12 if quick else 96):
+            kk = k + (seed % 24)
+            try:
+                msg = sym_constant_case(impl, kk)
+            except Exception as e:  # noqa: BLE001
+                msg = "harness error in constant case %d: %s: %s" % (kk, type(e).__name__, str(e)[:100])
+            res.case("sym-constant-%d" % kk, True, None)
+            res.count("sympy-constants")
+            if msg:
+                ok = False
+                res.violate(msg, {"check": "sym-constant", "k": kk})
         res.oblige("correspondence: dumps of API-built programs load (implementation and model) to the same program; arrays exact", "correspondence", ok)
         model.close()
     else:
@@ -263,6 +309,10 @@ def run(tier, seed):
 def replay(rep):
     import impl
     inp = rep["input"]
+    if inp.get("check") == "sym-constant":
+        msg = sym_constant_case(impl, inp["k"])
+        print(msg)
+        return 1 if msg else 0
     fw.build()
     model = fw.Model()
     rng = random.Random(inp["seed"])
